@@ -25,7 +25,9 @@ type DocOpts struct {
 	// WideFan, when > 0, is the fan-out of the two levels below the document
 	// element (sibling indexes of two digits).
 	BroadFan int // > 0: the document element has 17..BroadFan children
-	WideFan  int
+	// TopComments lets the root node have comment children next to the document element.
+	TopComments bool
+	WideFan     int
 	// NS, when non-nil, decorates elements/attributes with prefixes and namespace URIs.
 	NS *NSOpts
 }
@@ -47,7 +49,7 @@ var (
 
 // DefaultDoc is the general-purpose document shape.
 func DefaultDoc() DocOpts {
-	return DocOpts{MaxDepth: 4, MaxFan: 3, ElNames: ElNames3, AtNames: AtNames2, Texts: Texts, AtVals: AtVals, MaxAttrs: 2, PElem: 7}
+	return DocOpts{MaxDepth: 4, MaxFan: 3, ElNames: ElNames3, AtNames: AtNames2, Texts: Texts, AtVals: AtVals, MaxAttrs: 2, PElem: 7, TopComments: true}
 }
 
 // Doc draws a document.
@@ -136,6 +138,19 @@ func Doc(t *rapid.T, o DocOpts) *xdoc.Doc {
 		}
 	}
 	build(root, 1)
+	// one document in eight has comments next to the document element: the root node then
+	// has several children, and the document element has siblings
+	if o.TopComments && rapid.IntRange(0, 7).Draw(t, "topcomments") == 7 {
+		val := func(l string) string { return rapid.SampledFrom(o.Texts).Draw(t, l) }
+		switch rapid.IntRange(0, 2).Draw(t, "topwhere") {
+		case 0:
+			root.Kids = append([]*xdoc.Node{{Kind: xpath.CommentNode, Value: val("topc")}}, root.Kids...)
+		case 1:
+			root.Kids = append(root.Kids, &xdoc.Node{Kind: xpath.CommentNode, Value: val("topc")})
+		default:
+			root.Kids = append(append([]*xdoc.Node{{Kind: xpath.CommentNode, Value: val("topc1")}}, root.Kids...), &xdoc.Node{Kind: xpath.CommentNode, Value: val("topc2")})
+		}
+	}
 	return xdoc.NewDoc(root)
 }
 
